@@ -73,9 +73,11 @@ type Net struct {
 	MinLatency time.Duration
 	Jitter     time.Duration
 	// FailSends lists the 1-based ordinals (over all sends of the run) that fail.
-	FailSends []int
-	sends     int
-	broken    []*brokenLink
+	FailSends   []int
+	sends       int
+	broken      []*brokenLink
+	events      []func()
+	dispatching bool
 
 	// Delivered counts messages handed to receivers; Lost counts messages dropped
 	// because their connection went down while they were in flight.
@@ -380,13 +382,37 @@ func (nd *Node) Connect(_ context.Context, p peer.AddrInfo) error {
 	nd.net.epoch++
 	nd.net.conns[k] = nd.net.epoch
 	nd.net.S.Logf("net.connect %d-%d", nd.Index, other.Index)
-	for _, r := range other.receivers {
-		r.PeerConnected(nd.id)
-	}
-	for _, r := range nd.receivers {
-		r.PeerConnected(p.ID)
-	}
+	me, peerID := nd.id, p.ID
+	nd.net.notify(func() {
+		for _, r := range other.receivers {
+			r.PeerConnected(me)
+		}
+		for _, r := range nd.receivers {
+			r.PeerConnected(peerID)
+		}
+	})
 	return nil
+}
+
+// notify delivers connection events to the receivers one after the other, in the
+// order in which the connections changed, from one dispatcher goroutine — the
+// guarantee bsnet's connect-event manager gives bitswap. (Delivering them from
+// whichever goroutine called Connect / DisconnectFrom let a "connected" overtake
+// the "disconnected" that preceded it.)
+func (n *Net) notify(ev func()) {
+	n.events = append(n.events, ev)
+	if n.dispatching {
+		return
+	}
+	n.dispatching = true
+	n.S.GoBG("net.events", func() {
+		for len(n.events) > 0 {
+			ev := n.events[0]
+			n.events = n.events[1:]
+			ev()
+		}
+		n.dispatching = false
+	})
 }
 
 func (nd *Node) DisconnectFrom(_ context.Context, p peer.ID) error {
@@ -401,12 +427,15 @@ func (nd *Node) DisconnectFrom(_ context.Context, p peer.ID) error {
 	delete(nd.net.conns, k)
 	nd.net.S.Logf("net.disconnect %d-%d", nd.Index, other.Index)
 	nd.net.S.Fault("net-disconnect")
-	for _, r := range other.receivers {
-		r.PeerDisconnected(nd.id)
-	}
-	for _, r := range nd.receivers {
-		r.PeerDisconnected(p)
-	}
+	me := nd.id
+	nd.net.notify(func() {
+		for _, r := range other.receivers {
+			r.PeerDisconnected(me)
+		}
+		for _, r := range nd.receivers {
+			r.PeerDisconnected(p)
+		}
+	})
 	return nil
 }
 
@@ -458,7 +487,7 @@ func (nd *Node) Ping(ctx context.Context, p peer.ID) ping.Result {
 }
 func (nd *Node) Latency(peer.ID) time.Duration { return nd.net.MinLatency + nd.net.Jitter/2 }
 
-func (nd *Node) TagPeer(peer.ID, string, int)        {}
-func (nd *Node) UntagPeer(peer.ID, string)           {}
-func (nd *Node) Protect(peer.ID, string)             {}
-func (nd *Node) Unprotect(peer.ID, string) bool      { return false }
+func (nd *Node) TagPeer(peer.ID, string, int)   {}
+func (nd *Node) UntagPeer(peer.ID, string)      {}
+func (nd *Node) Protect(peer.ID, string)        {}
+func (nd *Node) Unprotect(peer.ID, string) bool { return false }
